@@ -50,6 +50,11 @@ func (ial *IndentAwareLexer) checkNextToken() {
 func (ial *IndentAwareLexer) handleNewLineToken(currentToken antlr.Token) {
 	ial.pendingTokens.Enqueue(currentToken)
 
+	if ial.nextLineHasNoContent() {
+		// blank lines and lines holding only a comment take no part in the indentation structure
+		return
+	}
+
 	currentIndentationLength := ial.getLengthOfNewlineToken(currentToken)
 
 	previousIndent := 0
@@ -73,6 +78,19 @@ func (ial *IndentAwareLexer) handleNewLineToken(currentToken antlr.Token) {
 			}
 		}
 	}
+}
+
+// nextLineHasNoContent tells whether the line that starts after the NEWLINE token that was just read
+// (indentation included) is empty or holds only a comment.
+func (ial *IndentAwareLexer) nextLineHasNoContent() bool {
+	input := ial.GetInputStream()
+	switch input.LA(1) {
+	case '\r', '\n', antlr.TokenEOF:
+		return true
+	case '/':
+		return input.LA(2) == '/'
+	}
+	return false
 }
 
 func (ial *IndentAwareLexer) getLengthOfNewlineToken(currentToken antlr.Token) int {
